@@ -147,9 +147,7 @@ def run(rep: Report, tier: str) -> None:
     for i in range(0, len(all_events), B):
         batch = all_events[i : i + B]
         r = common.validate_traces("Quantise_Trace", "Quantise_Trace.cfg", batch, timeout=1800, tag="qtr14")
-        rep.states += r["states"]
-        rep.transitions += r["transitions"]
-        rep.traces += 1
+        rep.add_trace_result(r)
         for (l, clause) in r["fails"]:
             fails.append((clause, batch[l - 1]))
     rep.nontrivial = {tuple(e) for e in all_events}  # type: ignore
